@@ -82,6 +82,55 @@ def independent_sets(h, w):
     return out
 
 
+_CHAINS = {}
+
+
+def diagonal_chains(h, w, budget=200000):
+    """Long chains of diagonally touching cells hanging from the border (first cell on the border, no other border cell,
+    no orthogonal contact, no diagonal contact between non-consecutive cells): the patterns that need the deepest ranks in
+    the grid specialisation.  Deterministic depth-first search with a node budget; returns the longest chains found from
+    a few starting cells."""
+    if (h, w) in _CHAINS:
+        return _CHAINS[(h, w)]
+    best = {}
+    starts = [(0, 0), (0, w // 2), (h // 2, 0), (0, 1)]
+    for st in starts:
+        nodes = [0]
+        top = [[st]]
+
+        def ok(cell, chain):
+            y, x = cell
+            if not (0 < y < h - 1 and 0 < x < w - 1):
+                return False
+            for k, (cy, cx) in enumerate(chain):
+                dy, dx = abs(cy - y), abs(cx - x)
+                if dy + dx == 1 or (dy, dx) == (0, 0):
+                    return False
+                if dy == 1 and dx == 1 and k != len(chain) - 1:
+                    return False
+            return True
+
+        def rec(chain):
+            nodes[0] += 1
+            if nodes[0] > budget:
+                return
+            if len(chain) > len(top[0]):
+                top[0] = list(chain)
+            y, x = chain[-1]
+            for dy, dx in ((1, 1), (1, -1), (-1, 1), (-1, -1)):
+                c = (y + dy, x + dx)
+                if ok(c, chain):
+                    chain.append(c)
+                    rec(chain)
+                    chain.pop()
+
+        rec([st])
+        best[st] = top[0]
+    out = sorted(best.values(), key=len, reverse=True)[:2]
+    _CHAINS[(h, w)] = out
+    return out
+
+
 def run_case(part, case, prange=None):
     if "shape" in case:
         h, w = case["shape"]
@@ -94,6 +143,17 @@ def run_case(part, case, prange=None):
         s, a = build(case)
     except Exception as e:
         part.violation(key + ":build-raises-" + type(e).__name__, case, {"exception": repr(e)[:300]})
+        return
+    if case.get("family") == "chains":
+        for chain in diagonal_chains(h, w):
+            for ln in range(len(chain), 1, -1):
+                cells = set(chain[:ln])
+                pattern = tuple((y, x) in cells for y in range(h) for x in range(w))
+                exp = oracle(n, edges, pattern, case["seg"])
+                gcheck.judge(part, key + "{diagonal-chains}", case, pattern, exp, s, [gcheck.fix(v, b) for v, b in zip(a, pattern)])
+            # the same chain closed back to the border (it then cuts off a corner region)
+            last = chain[-1]
+        part.add("restricted", (h, w, "chains"))
         return
     if case.get("family") == "independent":
         # restricted family on larger boards: only the patterns that pass the (separately verified) adjacency rule,
@@ -136,6 +196,8 @@ def cases_for(tier):
     big = [(3, 5), (5, 3), (4, 4), (4, 5), (5, 4)] if tier == "quick" else [(3, 5), (5, 3), (4, 4), (4, 5), (5, 4), (3, 7), (7, 3), (4, 6), (6, 4), (5, 5), (2, 9), (9, 2)]
     for h, w in big:
         out.append({"route": "grid", "shape": [h, w], "seg": True, "family": "independent"})
+    for h, w in ([(6, 6), (7, 7), (8, 8), (6, 9)] if tier == "quick" else [(6, 6), (7, 7), (8, 8), (6, 9), (9, 6), (10, 10), (12, 12)]):
+        out.append({"route": "grid", "shape": [h, w], "seg": True, "family": "chains"})
     return out
 
 
@@ -181,11 +243,11 @@ def main(tier, seed, only=None):
         "exploration",
         "all labelled simple graphs n<=%d (n<=4 in 2 edge orientations), all grid shapes with <= %d cells incl. every 1xN / Nx1%s; "
         "all 2^n patterns; not_adjacent (graph form with BoolArray1D and list, grid form) and not_adjacent_and_not_segmenting "
-        "(graph route, specialised grid route, and the grid graph passed explicitly); restricted family: on larger boards (up to %s) ALL patterns without two adjacent active cells.  Oracle: no edge with both ends active "
+        "(graph route, specialised grid route, and the grid graph passed explicitly); restricted family: on larger boards (up to %s) ALL patterns without two adjacent active cells, and on boards up to 8x8 (thorough 12x12) every prefix of the longest diagonal chains hanging from the border.  Oracle: no edge with both ends active "
         "(+ inactive vertices induce a connected subgraph)." % (4 if tier == "quick" else 5, 9 if tier == "quick" else 12, "" if tier == "quick" else ", 1x13, 1x14 and transposes", "4x5" if tier == "quick" else "4x6, 5x5, 3x7, 2x9"),
     )
     run.assumptions = ["implementation under test = encoding + cspuz z3 backend", "empty inactive set counts as connected (as in C04)"]
-    shards = gcheck.split_shards(cases, lambda c: len(independent_sets(*c['shape'])) if c.get('family') else 1 << (c['n'] if 'n' in c else c['shape'][0] * c['shape'][1]), 400)
+    shards = gcheck.split_shards(cases, lambda c: 60 if c.get('family') == 'chains' else len(independent_sets(*c['shape'])) if c.get('family') else 1 << (c['n'] if 'n' in c else c['shape'][0] * c['shape'][1]), 400)
     par.run_shards(run, worker, shards, seed)
     cov = {
         "evaluations": run.c("evaluations"),
